@@ -100,7 +100,9 @@ def design_and_replay(rep, tier, prop, relevant, interrupts=False, kinds=None, p
         stride = 1
         import random
         pick = random.Random(common.seed() + 17)
-        keep = min(1.0, (4000.0 / len(progs)) if tier == "quick" else 1.0)
+        # (thorough: everything up to 250k programs -- the pooled model with an idle clock exports three times as many, which
+        # does not fit in memory once replayed; then a seeded sample of that size)
+        keep = min(1.0, (4000.0 / len(progs)) if tier == "quick" else (250000.0 / len(progs)))
         for n, p in enumerate(progs):
             if pick.random() >= keep:
                 continue
